@@ -5,6 +5,7 @@ package checks
 import (
 	"encoding/json"
 	"fmt"
+	"os"
 	"strings"
 	"testing"
 	"testing/synctest"
@@ -75,6 +76,9 @@ type schedNode struct {
 // one preemption; switching at a block is free; multi-ready selects are additional (free)
 // choice points; executions always run to completion.
 func exploreSched(c *fw.Ctx, sc schedScenario) {
+	if only := os.Getenv("VERIF_ONLY_SCENARIO"); only != "" && !strings.HasPrefix(sc.ID, only) {
+		return
+	}
 	level2 := 0
 	var explore func(n schedNode, depth int)
 	explore = func(n schedNode, depth int) {
